@@ -21,6 +21,10 @@ IMPORTS = ("From Coq Require Import NArith Bool.\nFrom FV Require Import C19.Syn
 SRC_A = "module ma\n integer :: xa\ncontains\n subroutine sa(q)\n  integer :: q\n  q = abs(q)\n end subroutine sa\nend module ma\n"
 
 
+# a declaration whose rendering depends on options (attribute order, letter case of intrinsics), hovered before and after an edit
+SRC_R = "subroutine sr(arr, n)\n integer, intent(in) :: n\n real, intent(inout), target, dimension(n) :: arr\n arr = abs(arr)\nend subroutine sr\n"
+
+
 def make_root():
     root = tempfile.mkdtemp(prefix="verif_c19_")
     for d in ("d1", "d2", "inc1", "inc2", "ex1", "ex2"):
@@ -31,6 +35,8 @@ def make_root():
         f.write(SRC_A)
     with open(os.path.join(root, "b.zz"), "w") as f:
         f.write("module mb\nend module mb\n")
+    with open(os.path.join(root, "r.f90"), "w") as f:
+        f.write(SRC_R)
     return root
 
 
@@ -125,6 +131,19 @@ def effects(srv, conn, resp, root):
     eff["sighelp"] = "signatureHelpProvider" in caps
     eff["codeaction"] = caps.get("codeActionProvider", False)
     eff["files"] = sorted(os.path.relpath(p, root) for p in srv.workspace)
+    # rendering options: a hover right after start-up, and again after the document was changed (re-parsed in the server process)
+    rp = os.path.join(root, "r.f90")
+    if rp in srv.workspace:
+        def hov(line, ch):
+            r, _ = impl.request(srv, conn, "textDocument/hover", impl.pos_params(rp, line, ch))
+            return r[2]["contents"]["value"] if r and r[0] == "r" and r[2] else None
+        eff["hover_decl"] = hov(2, 47)
+        eff["hover_intrinsic"] = hov(3, 8)
+        impl.did_open(srv, rp)
+        impl.did_change(srv, rp, [{"text": "! edited\n" + SRC_R}])
+        eff["hover_decl_after_edit"] = hov(3, 47)
+        eff["hover_intrinsic_after_edit"] = hov(4, 8)
+        conn.take()
     return eff
 
 
@@ -212,6 +231,8 @@ def run_effects(ctx, root):
         ("excl_paths", ["--excl_paths", "ex1"], {"excl_paths": ["ex1"]}, lambda e: "ex1/f_ex1.f90" not in e["files"] and "ex2/f_ex2.f90" in e["files"]),
         ("incl_suffixes", ["--incl_suffixes", ".zz"], {"incl_suffixes": [".zz"]}, lambda e: "b.zz" in e["files"]),
         ("excl_suffixes", ["--excl_suffixes", "_d1.f90"], {"excl_suffixes": ["_d1.f90"]}, lambda e: "d1/f_d1.f90" not in e["files"] and "a.f90" in e["files"]),
+        ("sort_keywords", ["--sort_keywords"], {"sort_keywords": True},
+         lambda e: e.get("hover_decl") is not None and e.get("hover_decl") == e.get("hover_decl_after_edit") and "TARGET, DIMENSION(N), INTENT(INOUT)" in (e.get("hover_decl") or "").upper()),
     ]
     for name, cli, fd, pred in cases:
         e_cli = effects(*start(root, cli, None)[:3], root)
@@ -229,6 +250,13 @@ def run_effects(ctx, root):
     if e["files"] != ["d2/f_d2.f90"]:
         ctx.report("C19:effect:file-wins", "with source_dirs on both channels the file does not win",
                    {"kind": "counterexample", "input": {"cli": ["--source_dirs", "d1"], "file": {"source_dirs": ["d2"]}}, "implementation": e})
+    # file wins for a rendering option too, at start-up and after the document was edited
+    e = effects(*start(root, ["--sort_keywords"], {"sort_keywords": False})[:3], root)
+    ctx.count(("effect", "sort-file-wins"), True)
+    if "INTENT(INOUT), TARGET" not in (e.get("hover_decl") or "").upper() or e.get("hover_decl") != e.get("hover_decl_after_edit"):
+        ctx.report("C19:effect:file-wins", "--sort_keywords on the command line and sort_keywords: false in the file: the file does not win (before / after an edit)",
+                   {"kind": "counterexample", "input": {"cli": ["--sort_keywords"], "file": {"sort_keywords": False}},
+                    "implementation": {k: v for k, v in e.items() if k.startswith("hover_decl")}})
     # an option absent from the file keeps its command-line value: --pp_defs + unrelated file
     srv, conn, resp, msgs = start(root, ["--pp_defs", '{"FOO": "1"}', "--pp_suffixes", ".h"], {"nthreads": 1})
     ctx.count(("effect", "pp-kept"), True)
